@@ -275,3 +275,90 @@ Theorem C03_driver_chunking_independent_no_pauses :
   fst d1 = fst d2 /\ hd SSuspend (snd d1) = hd SSuspend (snd d2).
 Proof. exact InstNoPanic.html_drive_chunking_independent_quiet. Qed.
 Print Assumptions C03_driver_chunking_independent_no_pauses.
+
+(* ------------------------------------------------------------------ the tree builder's side, continued *)
+(* coq/Tree/TreeFrame.v, TreeSplitBody.v, TreeSplitRun.v.  The statement for whole token lists is _partial: it is
+   restricted to cuts that happen in a covered state (TreeSplitRun.covered_at: foster parenting off, the current node
+   not a template element, and the insertion mode "text", or "in body" / "in caption" / "in template" with an HTML
+   adjusted current node).  Not covered: the table-text queue and its flush, the modes whose character arm answers
+   SplitWhitespace (initial .. after head, in column group, after body, the frameset and after-after modes), "in cell",
+   foreign content, foster parenting, a template element as the current node. *)
+From HV Require Tree.TreeInvHelpers Tree.TreeInvMain Tree.TreeFrame Tree.TreeSplitBody Tree.TreeSplitRun.
+
+(* the event log of the model is write-only: a token processed from two states that differ only in the log (same
+   core, same DOM built so far) gives the same answer and again two such states *)
+Theorem C03_tree_event_log_is_write_only :
+  forall tk line s s', TreeSplit.same_core s s' -> TreeContractRun.dom_of s = TreeContractRun.dom_of s' ->
+    match TreeModel.process_token tk line s, TreeModel.process_token tk line s' with
+    | TreeTypes.Ok r1 t1, TreeTypes.Ok r2 t2 =>
+        r1 = r2 /\ TreeSplit.same_core t1 t2 /\ TreeContractRun.dom_of t1 = TreeContractRun.dom_of t2
+    | TreeTypes.Panic n1, TreeTypes.Panic n2 => n1 = n2
+    | TreeTypes.OutOfFuel, TreeTypes.OutOfFuel => True
+    | _, _ => False
+    end.
+Proof. exact TreeSplit.log_irrelevant_holds. Qed.
+Print Assumptions C03_tree_event_log_is_write_only.
+
+(* "in body" and the modes that hand character tokens to it: one character token or two.  The second
+   reconstruct-the-active-formatting-elements is a no-op, frameset-ok is the OR over the pieces, the appends merge *)
+Theorem C03_tree_body_mode_split_partial :
+  forall s line line' a b target,
+    TreeInvDefs.TInv s ->
+    TreeTypes.mode s = TreeTypes.InBody \/ TreeTypes.mode s = TreeTypes.InCaption \/ TreeTypes.mode s = TreeTypes.InTemplate ->
+    TreeTypes.foster_parenting s = false -> TreeInvHelpers.adjusted_ns s = TreeTypes.ns_html ->
+    TreeTypes.vlast (TreeTypes.open_elems s) = Some target ->
+    TreeSplit.is_template_node s target = false ->
+    a <> [] -> b <> [] ->
+    exists s1 sa s2,
+      TreeModel.process_token (TreeTypes.TChars (a ++ b)) line s = TreeTypes.Ok TreeTypes.SContinue s1 /\
+      TreeModel.process_token (TreeTypes.TChars a) line s = TreeTypes.Ok TreeTypes.SContinue sa /\
+      TreeModel.process_token (TreeTypes.TChars b) line' sa = TreeTypes.Ok TreeTypes.SContinue s2 /\
+      TreeSplit.same_core s1 s2 /\ TreeContractRun.dom_of s1 = TreeContractRun.dom_of s2 /\
+      TreeInvDefs.TInv s1 /\ TreeInvDefs.TInv s2.
+Proof. exact TreeSplitBody.body_mode_split_explicit. Qed.
+Print Assumptions C03_tree_body_mode_split_partial.
+
+(* whole token lists: toks' is toks with character tokens cut into pieces, every cut in a covered state of the run of
+   toks' (TreeSplitRun.splits_cov, which refines TreeSplit.splits), toks' obeys the tokenizer protocol: the two runs
+   end in states with the same core and the same DOM, or stop at the same Panic site, or both run out of fuel *)
+Theorem C03_tree_split_run_partial :
+  forall o toks toks',
+    TreeInvMain.protocol (TreeModel.init_state o) toks' ->
+    TreeSplitRun.splits_cov (TreeModel.init_state o) toks toks' ->
+    match TreeModel.run_tokens (TreeModel.init_state o) toks [], TreeModel.run_tokens (TreeModel.init_state o) toks' [] with
+    | TreeModel.RunOk t1 _, TreeModel.RunOk t2 _ =>
+        TreeSplit.same_core t1 t2 /\ TreeContractRun.dom_of t1 = TreeContractRun.dom_of t2
+    | TreeModel.RunPanic n1, TreeModel.RunPanic n2 => n1 = n2
+    | TreeModel.RunFuel, TreeModel.RunFuel => True
+    | _, _ => False
+    end.
+Proof. exact TreeSplitRun.tree_split_run_partial. Qed.
+Print Assumptions C03_tree_split_run_partial.
+
+(* the side condition only allows cuts of character tokens ... *)
+Theorem C03_tree_split_side_condition_refines_splits :
+  forall s l l', TreeSplitRun.splits_cov s l l' -> TreeSplit.splits l l'.
+Proof. exact TreeSplitRun.splits_cov_splits. Qed.
+Print Assumptions C03_tree_split_side_condition_refines_splits.
+
+(* ... is implied by a boolean check that runs the model ... *)
+Theorem C03_tree_split_side_condition_checker_sound :
+  forall l' s l, TreeSplitRun.splits_covb s l l' = true -> TreeSplitRun.splits_cov s l l'.
+Proof. exact TreeSplitRun.splits_covb_sound. Qed.
+Print Assumptions C03_tree_split_side_condition_checker_sound.
+
+(* ... and is satisfiable (a test, by computation): <!DOCTYPE html><title>xy</title><p>abc EOF with "xy" cut in "text"
+   mode and "abc" cut twice in "in body" *)
+Example C03_tree_split_example :
+  TreeSplitRun.splits_cov (TreeModel.init_state TreeInvMain.ex_opts) TreeSplitRun.ex_split_whole TreeSplitRun.ex_split_pieces /\
+  TreeSplit.run_sim (TreeModel.run_tokens (TreeModel.init_state TreeInvMain.ex_opts) TreeSplitRun.ex_split_whole [])
+                    (TreeModel.run_tokens (TreeModel.init_state TreeInvMain.ex_opts) TreeSplitRun.ex_split_pieces []).
+Proof. exact (conj TreeSplitRun.ex_split_covered TreeSplitRun.ex_split_same_dom). Qed.
+Print Assumptions C03_tree_split_example.
+
+(* the line number passed with a token does not matter either (pieces of a cut token may carry different ones) *)
+Theorem C03_tree_token_line_irrelevant :
+  forall tk l l' s s', TreeSplit.same_core s s' -> TreeContractRun.dom_of s = TreeContractRun.dom_of s' ->
+    TreeSplitRun.tok_sim (TreeModel.process_token tk l s) (TreeModel.process_token tk l' s').
+Proof. exact TreeSplitRun.process_token_line. Qed.
+Print Assumptions C03_tree_token_line_irrelevant.
